@@ -1,6 +1,6 @@
 """C04 — floating-point error bounds. Spec: BigNat.tla (exact naturals / scaled numbers, self-checked by BigNat_MC),
 MBFBig.tla (MBF decode), trace spec C04_Trace (the stated bounds, evaluated with exact arithmetic)."""
-import time
+import os, time
 from ..session import Sess
 from .. import core
 from ..bigval import validate_parallel
@@ -145,11 +145,16 @@ def run(ctx):
                        'distinct = distinct (op, a bytes, b bytes, handler mode); non-trivial = events whose operands are both '
                        'non-zero (a zero operand makes the exact result trivial)')
     # oracle self-check: BigNat against native arithmetic, exhaustive below the bound, limb base 8
-    r = ctx.model_check('BigNat_MC', ctx.pick('BigNat_MC.cfg', 'BigNat_MC_big.cfg'), workers=ctx.pick(4, 8),
-                        require_actions=False)
-    ctx.cov['bignat_selfcheck_states'] = r['distinct']
-    if r['distinct'] < 1000:
-        raise core.MachineryError('BigNat self-check explored only %d states' % r['distinct'])
+    if os.environ.get('VF_SKIP_ORACLE_SELFCHECK') == '1':
+        # only for mutant testing of the implementation (the oracle itself is unchanged there)
+        print('note: BigNat self-check skipped (VF_SKIP_ORACLE_SELFCHECK=1)')
+        ctx.cov['bignat_selfcheck_states'] = 'skipped'
+    else:
+        r = ctx.model_check('BigNat_MC', ctx.pick('BigNat_MC.cfg', 'BigNat_MC_big.cfg'), workers=ctx.pick(4, 8),
+                            require_actions=False)
+        ctx.cov['bignat_selfcheck_states'] = r['distinct']
+        if r['distinct'] < 1000:
+            raise core.MachineryError('BigNat self-check explored only %d states' % r['distinct'])
     t0 = time.time()
     s = Sess()
     from pcbasic.basic.values import values as V, numbers as N
